@@ -1063,3 +1063,21 @@ Proof.
   - rewrite B. destruct files as [|x r]; [exfalso; apply Hn; apply Z; reflexivity|].
     subst fmap. reflexivity.
 Qed.
+
+(* ================= upload bytes ================= *)
+Lemma sent_bytes_position_irrelevant u n : up_seekable u = true -> sent_bytes (set_pos n u) = up_content u.
+Proof. unfold sent_bytes, set_pos. simpl. intro H. rewrite H. reflexivity. Qed.
+
+Lemma send_n_all_whole n : forall u, up_seekable u = true ->
+  Forall (fun b => b = up_content u) (send_n n u).
+Proof.
+  induction n as [|n IH]; intros u H; simpl; constructor.
+  - unfold sent_bytes. rewrite H. reflexivity.
+  - apply (IH (after_send u)). exact H.
+Qed.
+
+Lemma drop_all s : drop_s (String.length s) s = EmptyString.
+Proof. induction s; simpl; auto. Qed.
+
+Lemma nonseekable_resend_empty u : up_seekable u = false -> sent_bytes (after_send u) = EmptyString.
+Proof. unfold sent_bytes, after_send, set_pos. simpl. intro H. rewrite H. apply drop_all. Qed.
